@@ -49,6 +49,34 @@ func NewImportNames(specs []*ast.ImportSpec) ImportNames {
 	return imports
 }
 
+// localPkgKey is the key under which the path of the package that the setup file
+// belongs to is kept. It cannot collide with an import path.
+const localPkgKey = "\x00local"
+
+// SetLocal tells which package the setup file belongs to, so that its types can be
+// told from types of packages the setup file does not import.
+func (i ImportNames) SetLocal(pkgPath string) {
+	// (prefixed, so that the entry never reads as the name of an import)
+	i[localPkgKey] = localPkgKey + pkgPath
+}
+
+// qualifier returns the name under which the generated code refers to pkg: the
+// name the setup file imports it under, nothing for the setup file's own package and
+// for a dot import, and the package's own name for a package the setup file does
+// not import (goimports adds that import).
+func (i ImportNames) qualifier(pkg *types.Package) string {
+	if pkgName, ok := i[pkg.Path()]; ok {
+		if pkgName == "." {
+			return ""
+		}
+		return pkgName
+	}
+	if local, ok := i[localPkgKey]; ok && local != localPkgKey+pkg.Path() {
+		return pkg.Name()
+	}
+	return ""
+}
+
 // LookupName looks up the map with the pkgPath and returns its corresponding name
 // in the conversion setup file.
 func (i ImportNames) LookupName(pkgPath string) (name string, ok bool) {
@@ -79,7 +107,7 @@ func (i ImportNames) TypeName(t types.Type) string {
 			// Predeclared types such as "error" have no package.
 			return typ.Obj().Name()
 		}
-		if pkgName, ok := i[typ.Obj().Pkg().Path()]; ok && pkgName != "." {
+		if pkgName := i.qualifier(typ.Obj().Pkg()); pkgName != "" {
 			return fmt.Sprintf("%v.%v", pkgName, typ.Obj().Name())
 		}
 		// Local types and types of a dot-imported package are referred to without a qualifier.
@@ -91,7 +119,9 @@ func (i ImportNames) TypeName(t types.Type) string {
 	case *types.Map:
 		return fmt.Sprintf("map[%v]%v", i.TypeName(typ.Key()), i.TypeName(typ.Elem()))
 	default:
-		return t.String()
+		// Channels, functions, struct and interface literals: spelled by go/types, with
+		// the same qualifiers.
+		return types.TypeString(t, i.qualifier)
 	}
 }
 
